@@ -90,6 +90,13 @@ def get_mod_nodes_remove_incompatibilities(
 
         # If the source node is confirmed, we need to remove target (and derived) incompatible nodes
         if edge[0] in confirmed_nodes:
+            # A target node that is not derived by anything is only there to mark a previously-detected infeasibility:
+            # the graph stays infeasible
+            if edge[1] not in start_nodes and \
+                    not any(True for _ in iter_in_edges(graph, edge[1], edge_type=EdgeType.DERIVES)):
+                infeasible_incompatibility_edges.add(edge)
+                continue
+
             confirmed_incompatibility_edges.add(edge)
             removed_nodes.add(edge[1])
 
